@@ -34,8 +34,13 @@ MANIFEST = dict(
           "rule cancels a factor of a compound against the other operand and so reads the rows of the individual factors) at the "
           "start and after every step of every history of edits that exchange scales and dimensions between the factors - among "
           "them the edit pairs that leave scale and dimension of the compound unchanged, i.e. every key a memo could be built on; "
-          "there the scales are numerals (sympy cannot cancel z3 terms) and the payloads symbolic. Histories are enumerated "
-          "(discrete), scales and payloads are solved for."),
+          "there the scales are numerals (sympy cannot cancel z3 terms) and the payloads symbolic. A further family keeps SEVERAL "
+          "REGISTRY OBJECTS in one history - a user registry, the process default registry (addressed by leaving registry= out, "
+          "edited by define_unit / add, modify / remove refused), a registry nobody has edited, registries created in the middle "
+          "and at the end by every constructor form - each with its own reference model: operations on one of them (edits, "
+          "requests that fill its memos, an edit that restores the contents) are followed by the probe round on ALL of them, so "
+          "an answer that depends on what another registry holds or was asked, or on whether the registry named was ever edited, "
+          "differs from the model of the registry named. Histories are enumerated (discrete), scales and payloads are solved for."),
     design="DESIGN.md section 4 C12",
     technique="explicit-state bounded model checking over operation histories, symbolic (z3 real) data, reference-model refinement check per state; counterexample replay on plain unyt")
 EXPLANATION = (
@@ -71,12 +76,23 @@ EXPLANATION = (
     "that moment with a symbolic payload, is run at the start and after EVERY step, so each call is repeated across every edit with "
     "all memo layers (string memo, written-back rows, lru-cached unit rules keyed by Unit hash/eq, _check_em_conversion) warm; "
     "oracle: SI magnitude and dimensions from the model's rows + label consistency. z3 decides "
-    "each obligation for all positive scales / all payloads at once; a stale memo shows as a term that still mentions an old symbol."
+    "each obligation for all positive scales / all payloads at once; a stale memo shows as a term that still mentions an old symbol. "
+    "Family 'multi' (several registry objects, one history): worlds U = user registry with xfoo (length, prefixable) and xbar, D = "
+    "unyt's default registry with an xbar of its own (constructions and define_unit address it by leaving registry= out; its "
+    "modify / remove must raise TypeError and change nothing), P = UnitRegistry() created before anything else and edited only by "
+    "the operations P:add_foo / P:def_foo / P:touch (add + remove of an unrelated symbol: edited, same contents), L = UnitRegistry() "
+    "created by the operation 'late' and asked at once, N = registries created after the history by the four constructor forms "
+    "(UnitRegistry(), unit_system='cgs', lut=copy of the default table without defaults, lut={own row} + defaults). 12 operations "
+    "(define_unit / add / refused remove on D, Unit('kxfoo') / Unit('xfoo*xbar') on D, the three edits and a request on P, a "
+    "request and a modify on U, late); at the end the probe round on every world in the order D, L, P, U (+ rows listed, + "
+    "cold-registry differential for U), three probe strings + rows on every N, unit_system_id of P and two N forms against a "
+    "fresh registry with the same table, then U and P asked again after all the others; each world has its own model with its "
+    "own symbolic scales, so a term of another world in an answer is a violation for all values."
 )
 BOUNDS = {
     "quick": "4 symbols on top of the default table: xfoo (prefixable), xbar present at the start; kxfoo (stand-alone symbol that shadows "
-             "kilo-xfoo) and xnew (prefixable) absent at the start. Six families, ALL histories up to a length over each alphabet "
-             "(14674 histories; prefix-closed, so every prefix is observed too), grouped into cases by their first operation (the first two in the widest families): "
+             "kilo-xfoo) and xnew (prefixable) absent at the start. Seven families, ALL histories up to a length over each alphabet "
+             "(16559 histories; prefix-closed, so every prefix is observed too), grouped into cases by their first operation (the first two in the widest families): "
              "end = 21 operations (6 edits of xfoo/xbar, 6 constructions/uses, 6 ways of asking the registry, copies of / arithmetic "
              "with earlier units, old_mix = epoch-mixed pairs) to length 3: 9724; every = 6 edit ops with a full probe round after every step, "
              "length 3: 259; shadow = 14 operations "
@@ -88,13 +104,17 @@ BOUNDS = {
              "of 12 cancelling calls at the start and after every step: 366. 7 (10 in shadow / fresh) probe strings + the "
              "kxfoo/xfoo conversion factor + the listed-rows check per observed state; old_mix: at most 6 earlier quantities per "
              "call, the whole battery (13 calls) for the oldest pair whose term or dimension changed, the 9 non-forking calls for the "
-             "others; scales/values symbolic except the scales of the cancel family (numerals, payloads symbolic)",
+             "others; scales/values symbolic except the scales of the cancel family (numerals, payloads symbolic); multi = 12 operations "
+             "naming one of 3 registry objects (user, process default, never edited) or creating one, to length 3: 1885, observed at "
+             "the end on all registry objects (3 + those created late + 4 constructor forms)",
     "thorough": "the quick families (end, shadow, shadow-every, fresh to length 3; every to length 4: 1555) + deep = the 12 round-1 "
                 "operations to length 4 (22621) + ask-deep = 6 edits + 6 asks + copies to length 4 (30941) + shadow-deep = 10 "
                 "operations (shadow without define_unit / array creation / conversion / old_mix) to length 4 (11111) + mix-deep = 6 "
-                "edits + arr_create + old_mix to length 4 (4681) + cancel to length 3 (2 x 2380): 89718 histories",
+                "edits + arr_create + old_mix to length 4 (4681) + cancel to length 3 (2 x 2380) + multi as in quick (1885): 91603 histories",
 }
-OUTSIDE = ("histories longer than the bound; more than two user symbols present at the start and two added later; prefixes other "
+OUTSIDE = ("histories longer than the bound; more than two user symbols present at the start and two added later; family multi: "
+           "arithmetic between quantities of different registry objects (C13), more than one user registry with symbols of its own, "
+           "the default registry addressed explicitly, asks other than Unit(string) / rows / unit_system_id on the other registries; prefixes other "
            "than k / m / M in the shadowing and asking operations; stand-alone symbols spelled like a prefixed form that are "
            "themselves prefixable; offsets (always 0 here; C03/C08 treat offsets); unit-system objects created from an edited "
            "registry (C10); to_json / pickle / copies of the registry itself (C11/C13); cancellation of factors with SYMBOLIC "
@@ -140,6 +160,19 @@ FRESH = ["add_new", "mod_new_f", "rm_new", "def_new", "mk_new", "mk_knew", "mk_c
 CANCEL_CONFIGS = {"int": (2.0, 3.0), "frac": (0.5, 1.25)}
 CANCEL = ["c_foo_f", "c_bar_f", "c_foo_addL", "c_foo_addT", "c_bar_addT", "c_bar_addL", "c_foo_qT", "c_bar_qL", "c_foo_dimT",
           "c_bar_dimL", "c_foo_qdimT", "c_bar_qdimL", "rm_foo"]
+
+
+# SEVERAL REGISTRY OBJECTS IN ONE HISTORY (family 'multi'): 'the result of a call depends only on its arguments and the CURRENT
+# contents of the registry it names' also excludes what was done earlier to / asked earlier of ANOTHER registry object, and
+# whether the registry named has ever been edited. Worlds: U = a user registry holding xfoo (length, prefixable) and xbar;
+# D = the process default registry (addressed by leaving registry= out), holding its own xbar; P = UnitRegistry() made at the
+# start that nobody has edited; L = UnitRegistry() made in the middle of the history ('late'); N0..N3 = registries made at the
+# very end by every constructor form. Every operation names its world.
+# (the default registry refuses modify / remove: 'D:rm_foo' must raise TypeError and change nothing; a re-add is its edit route)
+MULTI = ["D:def_foo", "D:add_foo", "D:rm_foo", "D:mk_pref", "D:mk_comp", "P:touch", "P:mk_atom", "P:add_foo", "P:def_foo", "U:mk_comp",
+         "U:mod_foo_f", "late"]
+NOW_FORMS = ["plain", "unit_system", "lut_only", "lut_plus_defaults"]
+NOW_PROBES = ("atom", "prefixed_k", "compound")
 
 
 def sel(ctx, name, n):  # registry_common.sel (same decoding k <= o < k+1) with a bisection: log2(n) forks per step
@@ -257,32 +290,49 @@ UNIT_BATTERY = [("unit-div-m", f"{FOO}*{BAR}", "m"), ("unit-div-s", f"{FOO}*{BAR
 class World:
     """one live registry + its reference model + the descriptive log"""
 
-    def __init__(self, ctx, probe_set=None, scales=None):
+    def __init__(self, ctx, probe_set=None, scales=None, reg=None, tag="", init=(FOO, BAR), implicit=False, hist=None):
+        """reg / tag / init / implicit / hist: family 'multi' runs several worlds (registry objects) in one history: `reg` an
+        existing registry object (the process default registry, a registry nobody has edited), `tag` names it in symbols and
+        obligation labels, `init` the harness symbols added at the start, `implicit` = the registry is addressed by leaving
+        registry= out (the default registry), `hist` the history shared by all worlds"""
         self.ctx = ctx
+        self.tag, self.pre = tag, (tag + ":" if tag else "")
         self.probes = PROBES if probe_set is None else probe_set
         self.unyt = ctx.mods["unyt"]
         self.D = self.unyt.dimensions
-        self.reg = ctx.registry([])
+        self.reg = ctx.registry([]) if reg is None else reg
+        self.frozen = type(self.reg).__name__ == "_NonModifiableUnitRegistry"  # the default registry: modify / remove are refused
+        self.rarg = None if implicit else self.reg  # what is passed as registry= when a unit / quantity is made from a string
         self.scales = scales  # None: symbolic scales; (A, B): the numerals of the 'cancel' family
-        if scales is None:
-            s0, b0 = ctx.real("s0", pos=True), ctx.real("b0", pos=True)
-        else:
-            s0, b0 = scales
         self.mix_kinds = MIX_KINDS + (MIX_KINDS_NEW if any(p.kind == "new_atom" for p in self.probes) else ())
-        # the real public add(): exercised with symbolic scales through the A2 float shim
-        self.reg.add(FOO, s0, self.D.length, prefixable=True)
-        self.reg.add(BAR, b0, self.D.time)
         self.model = Model12()
-        self.model.add(FOO, s0, self.D.length, 0.0, True, tag="s0")
-        self.model.add(BAR, b0, self.D.time, 0.0, False, tag="b0")
+        # the real public add(): exercised with symbolic scales through the A2 float shim
+        if FOO in init:
+            s0 = ctx.real("s0" + tag, pos=True) if scales is None else scales[0]
+            self.reg.add(FOO, s0, self.D.length, prefixable=True)
+            self.model.add(FOO, s0, self.D.length, 0.0, True, tag="s0")
+        if BAR in init:
+            b0 = ctx.real("b0" + tag, pos=True) if scales is None else scales[1]
+            self.reg.add(BAR, b0, self.D.time)
+            self.model.add(BAR, b0, self.D.time, 0.0, False, tag="b0")
         self.log = Log([FOO, BAR, KFOO, NEW])
         self.old = []
         self.oldq = []  # quantities made earlier: (quantity, payload term, unit scale term, dims, string)
-        self.hist = []
+        self.hist = [] if hist is None else hist
         self.last_edit = "init"  # the last operation that changed the contents (names the circumstances of a stale memo)
         self.mc = mc_stats(ctx)
         self.snaps = [self.user_rows()]  # the non-default rows of the table after every step (index = number of steps taken)
         self.seen_state()
+
+    def refusal(self, present):
+        """the documented outcome of modify / remove: the default registry refuses both (TypeError, nothing changes), any other
+        registry knows table rows only"""
+        if self.frozen:
+            return "TypeError"
+        return None if present else "SymbolNotFoundError"
+
+    def _req(self, label, cond, info):
+        return req(self.ctx, self.pre + label, cond, info)
 
     def seen_state(self):
         if self.mc is not None:
@@ -297,12 +347,12 @@ class World:
         ctx = self.ctx
         label = self.log.label(probe)
         exp = self.model.eval(probe.net)
-        mk = maker or (lambda: self.unyt.Unit(probe.string, registry=self.reg))
+        mk = maker or (lambda: self.unyt.Unit(probe.string, registry=self.rarg))
         res = call(mk)
         self.log.request(probe.string, probe.text)
         if self.mc is not None:
             self.mc["impl_calls"] += 1
-        req(ctx, label, resolution_ok(res, exp), lambda: self.info(probe=probe.string, got=describe(res),
+        self._req(label, resolution_ok(res, exp), lambda: self.info(probe=probe.string, got=describe(res),
                                                                   expected="unknown symbol" if exp is None else f"{exp[0]!r} {exp[1]}"))
         ctx.observe(label, obs_value(res))
         if res[0] == "ok":
@@ -324,7 +374,7 @@ class World:
         a, k = got["atom"], got["prefixed_k"]
         if a[0] == "ok" and k[0] == "ok" and self.model.atom("k", FOO) is not None and KFOO not in self.model.t:
             r = call(k[1].get_conversion_factor, a[1])
-            req(self.ctx, self.log.label(KRATIO), r[0] == "ok" and close(r[1][0], 1000.0),
+            self._req(self.log.label(KRATIO), r[0] == "ok" and close(r[1][0], 1000.0),
                 lambda: self.info(what="Unit('kxfoo').get_conversion_factor(Unit('xfoo'))", got=str(r[1]), expected="1000"))
         self.table_round()
         if cold:
@@ -353,7 +403,7 @@ class World:
         ok = all(k in rows for k in self.model.t)
         for k, row in sorted(rows.items()):
             ok = And(ok, self.row_ok(k, row))
-        req(self.ctx, "table/rows-implied-by-contents", ok,
+        self._req("table/rows-implied-by-contents", ok,
             lambda: self.info(listed={k: (repr(v[0]), str(v[1])) for k, v in rows.items()}, model=sorted(self.model.t)))
 
     def cold_differential(self):
@@ -367,24 +417,24 @@ class World:
             exp = self.model.eval(p.net)
             # the reference model must be what the real code answers on a cold registry holding the same rows: this
             # validates the specification against the implementation (and the live registry is compared with the model)
-            req(ctx, f"model==cold-registry/{p.kind}", resolution_ok(ref, exp),
+            self._req(f"model==cold-registry/{p.kind}", resolution_ok(ref, exp),
                 lambda: self.info(probe=p.string, cold=describe(ref), model="unknown symbol" if exp is None else f"{exp[0]!r} {exp[1]}"))
 
     def check_old(self):
         ok = True
         for u, bv, dims, s in self.old:
             ok = And(ok, exact_eq(u.base_value, bv), dims_equal(u.dimensions, dims))
-        req(self.ctx, f"old-units-keep-value/after-{self.hist[-1]}", ok, self.info)
+        self._req(f"old-units-keep-value/after-{self.hist[-1]}", ok, self.info)
 
     # ---------------------------------------------------------------- transitions
     def outcome(self, op, res, expect_exc):
         got = type(res[1]).__name__ if res[0] == "raise" else None
-        req(self.ctx, f"op:{op}/outcome", got == expect_exc, lambda: self.info(expected=expect_exc, got=got))
+        self._req(f"op:{op}/outcome", got == expect_exc, lambda: self.info(expected=expect_exc, got=got))
         self.ctx.observe(f"op:{op}/outcome", str(got))
 
     def step(self, i, op):
         ctx, reg, model, D = self.ctx, self.reg, self.model, self.D
-        self.hist.append(op)
+        self.hist.append(self.pre + op)
         if self.mc is not None:
             self.mc["transitions"] += 1
         present = FOO in model.t
@@ -398,27 +448,27 @@ class World:
         elif op == "mod_foo_f":
             v = ctx.real(f"v{i}", pos=True)
             res = call(reg.modify, FOO, v)
-            self.outcome(op, res, None if present else "SymbolNotFoundError")
-            if present:
+            self.outcome(op, res, self.refusal(present))
+            if present and not self.frozen:
                 model.modify(FOO, v, tag=f"v{i}")
                 self.log.edit(FOO, "modify")
         elif op == "mod_foo_q":
             v = ctx.real(f"v{i}", pos=True)
             q = ctx.quantity(v, "km", reg)
             res = call(reg.modify, FOO, q)
-            self.outcome(op, res, None if present else "SymbolNotFoundError")
-            if present:
+            self.outcome(op, res, self.refusal(present))
+            if present and not self.frozen:
                 model.modify(FOO, v * 1000.0, D.length, tag=f"v{i}k")
                 self.log.edit(FOO, "modify")
         elif op == "rm_foo":
             res = call(reg.remove, FOO)
-            self.outcome(op, res, None if present else "SymbolNotFoundError")
-            if present:
+            self.outcome(op, res, self.refusal(present))
+            if present and not self.frozen:
                 model.remove(FOO)
                 self.log.edit(FOO, "remove")
         elif op == "def_foo":
             v = ctx.real(f"v{i}", pos=True)
-            res = call(self.unyt.define_unit, FOO, (v, "km"), prefixable=True, registry=reg)
+            res = call(self.unyt.define_unit, FOO, (v, "km"), prefixable=True, registry=self.rarg)
             self.outcome(op, res, "RuntimeError" if present else None)
             if not present:
                 model.add(FOO, v * 1000.0, D.length, 0.0, True, tag=f"v{i}k")
@@ -426,33 +476,34 @@ class World:
         elif op == "mod_bar_f":
             v = ctx.real(f"v{i}", pos=True)
             res = call(reg.modify, BAR, v)
-            self.outcome(op, res, None)
-            model.modify(BAR, v, tag=f"v{i}")
-            self.log.edit(BAR, "modify")
+            self.outcome(op, res, self.refusal(True))
+            if not self.frozen:
+                model.modify(BAR, v, tag=f"v{i}")
+                self.log.edit(BAR, "modify")
         elif op in MK:
             self.construct(PK[MK[op]])
         elif op == "arr_create":
             x = ctx.real(f"x{i}")
             p = PK["compound_prefixed"]
-            res, exp, label = self.construct(p, lambda: ctx.quantity(x, p.string, reg))
+            res, exp, label = self.construct(p, lambda: ctx.quantity(x, p.string, self.rarg))
             if res[0] == "ok":
-                req(ctx, "op:arr_create/payload", exact_eq(payload(res[1])[0], x), self.info)
+                self._req("op:arr_create/payload", exact_eq(payload(res[1])[0], x), self.info)
         elif op == "convert":
             x = ctx.real(f"x{i}")
             p = PK["prefixed_k"]
             exp = model.eval(p.net)
             circ = self.log.circumstances(p)
             if exp is None:
-                res = call(lambda: ctx.quantity(x, p.string, reg))
+                res = call(lambda: ctx.quantity(x, p.string, self.rarg))
                 ok = res[0] == "raise" and type(res[1]).__name__ == "UnitParseError"
             else:
                 target = {id(D.length): "m", id(D.mass): "kg", id(D.time): "s"}[id(exp[1])]
-                res = call(lambda: ctx.quantity(x, p.string, reg).to(target))
+                res = call(lambda: ctx.quantity(x, p.string, self.rarg).to(target))
                 ok = res[0] == "ok" and And(close(payload(res[1])[0], x * exp[0]), str(res[1].units) == target)
                 if res[0] == "ok":
                     ctx.observe("op:convert", payload(res[1])[0])
             self.log.request(p.string, p.text)
-            req(ctx, f"op:convert/{circ}", ok, lambda: self.info(expected="unknown symbol" if exp is None else f"x*{exp[0]!r}",
+            self._req(f"op:convert/{circ}", ok, lambda: self.info(expected="unknown symbol" if exp is None else f"x*{exp[0]!r}",
                                                                  got=type(res[1]).__name__ if res[0] == "raise" else str(res[1])))
         elif op == "arith":
             x, y = ctx.real(f"x{i}"), ctx.real(f"y{i}")
@@ -460,7 +511,7 @@ class World:
             # circumstances of the string 'xfoo' (xbar is never re-added, and modify drops the exact key): the cause of a stale
             # operand is named by the last edit of xfoo, not by a later edit of xbar
             circ = self.log.circumstances(PK["atom"])
-            res = call(lambda: ctx.quantity(x, FOO, reg) * ctx.quantity(y, BAR, reg))
+            res = call(lambda: ctx.quantity(x, FOO, self.rarg) * ctx.quantity(y, BAR, self.rarg))
             self.log.request(FOO, PK["atom"].text)
             self.log.request(BAR, PK["atom2"].text)
             if exp is None:
@@ -470,7 +521,7 @@ class World:
                                             dims_equal(res[1].units.dimensions, exp[1]), self.label_ok(res[1].units))
                 if res[0] == "ok":
                     ctx.observe("op:arith", payload(res[1])[0])
-            req(ctx, f"op:arith/{circ}", ok, lambda: self.info(expected="unknown symbol" if exp is None else f"SI x*y*{exp[0]!r}",
+            self._req(f"op:arith/{circ}", ok, lambda: self.info(expected="unknown symbol" if exp is None else f"SI x*y*{exp[0]!r}",
                                                                got=type(res[1]).__name__ if res[0] == "raise" else str(res[1])))
         elif op in ("add_kfoo", "add_new"):
             sym, dims, pref = (KFOO, D.time, False) if op == "add_kfoo" else (NEW, D.mass, True)
@@ -560,7 +611,7 @@ class World:
             ok = res[0] == "ok" and res[1] is (exp is not None)
             self.ctx.observe(f"ask:in:{string}", str(res[1]))
         self.log.request(string, probe.text)
-        req(self.ctx, f"ask:{kind}:{probe.kind}/{circ}", ok,
+        self._req(f"ask:{kind}:{probe.kind}/{circ}", ok,
             lambda: self.info(asked=f"reg[{string!r}]" if kind == "item" else f"{string!r} in reg",
                               got=type(res[1]).__name__ if res[0] == "raise" else str(res[1]),
                               expected="unknown symbol" if exp is None else f"{exp[0]!r} {exp[1]}"))
@@ -589,7 +640,7 @@ class World:
             if res[0] == "ok":
                 ctx.observe(f"ask:{op}", payload(res[1])[0])
                 self.remember(res[1], probe.string)
-        req(ctx, f"ask:{op}/{circ}", ok, lambda: self.info(expected="unknown symbol" if exp is None else f"SI value*{exp[0]!r}",
+        self._req(f"ask:{op}/{circ}", ok, lambda: self.info(expected="unknown symbol" if exp is None else f"SI value*{exp[0]!r}",
                                                           got=type(res[1]).__name__ if res[0] == "raise" else str(res[1])))
 
     def ask_latex(self):
@@ -602,7 +653,7 @@ class World:
             ok = res[0] == "raise" and type(res[1]).__name__ == "UnitParseError"
         else:
             ok = res[0] == "ok" and r"\rm{k%s}" % FOO in res[1] and r"\rm{%s}" % BAR in res[1]
-        req(self.ctx, f"ask:latex/{circ}", ok, lambda: self.info(got=type(res[1]).__name__ if res[0] == "raise" else res[1]))
+        self._req(f"ask:latex/{circ}", ok, lambda: self.info(got=type(res[1]).__name__ if res[0] == "raise" else res[1]))
         self.ctx.observe("ask:latex", str(res[1]) if res[0] == "ok" else type(res[1]).__name__)
 
     def ask_lists(self):
@@ -617,7 +668,7 @@ class World:
             listed = sorted(k for k in same[1] if k in rows) if same[0] == "ok" else None
             ok = ok and listed == sorted(k for k in rows if dims_equal(rows[k][1], dims))
             ok = ok and all(k in listed for k in m.t if dims_equal(m.t[k][1], dims))
-        req(self.ctx, "ask:lists", ok, lambda: self.info(prefixable=pre, model=sorted(m.t)))
+        self._req("ask:lists", ok, lambda: self.info(prefixable=pre, model=sorted(m.t)))
         self.table_round()
 
     def ask_sysid(self):
@@ -643,7 +694,7 @@ class World:
                     stale = k
                     ok = self.same_rows(self.snaps[k], now)
                     break
-        req(self.ctx, f"ask:sysid/after-{self.last_edit}", ok,
+        self._req(f"ask:sysid/after-{self.last_edit}", ok,
             lambda: self.info(live=str(live[1]), fresh=str(cold[1]),
                               stale="the id of no table of this history" if stale is None else f"the id of the table after step {stale}"))
 
@@ -688,7 +739,7 @@ class World:
                             good = And(good, exact_eq(payload(c)[0], x))
                         self.old.append((cu, bv, dims, s))
                     ok = And(ok, good)
-            req(ctx, f"op:old_copy/copy-keeps-old-term/{phase}", ok, lambda: self.info(copies=n))
+            self._req(f"op:old_copy/copy-keeps-old-term/{phase}", ok, lambda: self.info(copies=n))
             if phase == "cold":
                 for s in sorted({s for _, _, _, s in units}):
                     self.construct(BY_STRING[s])
@@ -763,7 +814,7 @@ class World:
             for name, ok in self.mix_pair(q, x, bv, d0, s, *new[s], full=o is lead):
                 verdict[name] = And(verdict.get(name, True), ok)
         for name in sorted(verdict):
-            req(ctx, f"mix:{name}/after-{self.last_edit}", verdict[name], lambda: self.info(pairs=n, what=MIX_WHAT[name.split("/")[0]]))
+            self._req(f"mix:{name}/after-{self.last_edit}", verdict[name], lambda: self.info(pairs=n, what=MIX_WHAT[name.split("/")[0]]))
         ctx.observe("op:old_mix/n", n)
 
     def mix_pair(self, q, x, bv, d0, s, nq, y, cur, d1, full=True):
@@ -930,7 +981,7 @@ class World:
                                             dims_equal(res[1].units.dimensions, exp[1]), self.label_ok(res[1].units))
                 if res[0] == "ok":
                     ctx.observe(f"cancel:{label}/{k}", payload(res[1])[0])
-            req(ctx, f"cancel:{label}/{tag}", ok,
+            self._req(f"cancel:{label}/{tag}", ok,
                 lambda: self.info(call=f"({ls}) {op} ({rs})", got="-" if res is None else (type(res[1]).__name__ if res[0] == "raise" else f"{res[1]!r} with unit scale {res[1].units.base_value!r}"),
                                   model={n: repr(v[0]) for n, v in self.model.t.items()}))
         for label, ls, rs in UNIT_BATTERY:
@@ -941,7 +992,7 @@ class World:
             else:
                 ok = res[0] == "ok" and And(close(res[1].base_value, tl[0] / tr[0]), dims_equal(res[1].dimensions, tl[1] / tr[1]),
                                             self.label_ok(res[1]))
-            req(ctx, f"cancel:{label}/{tag}", ok,
+            self._req(f"cancel:{label}/{tag}", ok,
                 lambda: self.info(call=f"(Unit({ls!r}) / Unit({rs!r})).simplify()", got=describe(res) + (" " + str(res[1]) if res[0] == "ok" else "")))
         # base conversion of the compound (the cached E&M check and the base-equivalent route see the unit as a key)
         x, tx, q = self.fresh_operand(f"cx{k}base", f"{FOO}*{BAR}")
@@ -951,7 +1002,7 @@ class World:
             res = call(lambda: q[1].in_mks())
             ok = res[0] == "ok" and And(close(payload(res[1])[0] * res[1].units.base_value, x * tx[0]),
                                         dims_equal(res[1].units.dimensions, tx[1]), self.label_ok(res[1].units))
-        req(ctx, f"cancel:in_mks/{tag}", ok, self.info)
+        self._req(f"cancel:in_mks/{tag}", ok, self.info)
 
     def old_arith(self, i):
         """arithmetic with units / quantities made earlier: their own term enters the result, not the registry's current one"""
@@ -976,8 +1027,114 @@ class World:
             else:
                 # the unit rule re-reads every factor from the registry (Unit.simplify): a symbol that is gone is refused
                 ok = And(ok, FOO not in self.model.t and type(res[1]).__name__ == "SymbolNotFoundError")
-        req(ctx, "op:old_arith/old-term-enters-result", ok, lambda: self.info(operands=n))
+        self._req("op:old_arith/old-term-enters-result", ok, lambda: self.info(operands=n))
         ctx.observe("op:old_arith/n", n)
+
+
+class Worlds:
+    """several registry objects side by side, each with its own reference model; one shared history"""
+
+    def __init__(self, ctx):
+        self.ctx, self.hist = ctx, []
+        UR = ctx.mods["UR"]
+        self.UR = UR
+        self.w = {"U": World(ctx, tag="U", hist=self.hist),
+                  "D": World(ctx, reg=UR.default_unit_registry, tag="D", init=(BAR,), implicit=True, hist=self.hist),
+                  # created before anything else happens to the default registry, and never edited unless an operation does it
+                  "P": World(ctx, reg=UR.UnitRegistry(), tag="P", init=(), hist=self.hist)}
+        self.lates = 0
+
+    def make(self, form, tag):
+        """a registry made NOW by one of the constructor forms; its contents are the default table (+ one row of its own)"""
+        from unyt._unit_lookup_table import default_unit_symbol_lut
+        ctx, UR = self.ctx, self.UR
+        rows = ()
+        if form == "plain":
+            reg = UR.UnitRegistry()
+        elif form == "unit_system":
+            reg = UR.UnitRegistry(add_default_symbols=True, unit_system="cgs")
+        elif form == "lut_only":
+            reg = UR.UnitRegistry(add_default_symbols=False, lut=dict(default_unit_symbol_lut))
+        else:
+            q = ctx.real("q" + tag, pos=True)
+            D = ctx.mods["unyt"].dimensions
+            reg = UR.UnitRegistry(lut={"xqq": (q, D.length, 0.0, r"\rm{xqq}", False)})
+            rows = (("xqq", q, D.length),)
+        w = World(ctx, reg=reg, tag=tag, init=(), hist=self.hist)
+        for name, q, dims in rows:
+            w.model.add(name, q, dims, 0.0, False, tag="q")
+        return w
+
+    def step(self, i, op):
+        if op == "late":
+            self.lates += 1
+            tag = f"L{self.lates}"
+            self.hist.append("late")
+            self.w[tag] = self.make("plain", tag)
+            # asked at once (its string memo is cold; whatever the default registry holds by now must not show)
+            for k in NOW_PROBES:
+                self.w[tag].construct(PK[k])
+            return
+        tag, name = op.split(":")
+        w = self.w[tag]
+        if name == "touch":  # an edit that leaves the contents as they were: the registry has been edited, its table is the same
+            w.step(i, "add_new")
+            w.step(i, "rm_new")
+        else:
+            w.step(i, name)
+        w.check_old()
+
+    def final(self):
+        for tag in sorted(self.w):
+            self.w[tag].probe_round(cold=tag == "U")
+        for form in NOW_FORMS:
+            w = self.make(form, "N" + form)
+            for k in NOW_PROBES:
+                w.construct(PK[k])
+            w.table_round()
+            if form in ("plain", "lut_plus_defaults"):  # (an id costs a digest of the whole table: asked of three registries only)
+                w.ask_sysid()
+        self.w["P"].ask_sysid()  # the id of a registry object is the id of a fresh registry holding its table
+        # and the worlds asked first are asked again after all the others have been (the order of asking is a history too)
+        for tag in ("U", "P"):
+            for k in NOW_PROBES:
+                self.w[tag].construct(PK[k])
+
+
+def make_multi_case(prefix, nmax, alphabet):
+    def h(ctx):
+        ws = Worlds(ctx)
+        for i in range(nmax):
+            if i < len(prefix):
+                op = prefix[i]
+            else:
+                k = sel(ctx, f"op{i}", len(alphabet) + 1)
+                if k == 0:
+                    break
+                op = alphabet[k - 1]
+            ws.step(i, op)
+        ws.final()
+        mc = ws.w["U"].mc
+        if mc is not None:
+            mc["traces"] += 1
+
+    n_ext = sum(len(alphabet) ** k for k in range(0, nmax - len(prefix) + 1))
+    c = Case(f"C12/multi/{'.'.join(o.replace(':', '-') for o in prefix) or 'empty'}", h,
+             bounds=f"all extensions to length {nmax}: {n_ext} histories", budget_s=3000, max_paths=200000, weight=n_ext)
+    # never a warm-up of another case: it edits the process default registry (a documented global effect; the engine puts the
+    # default registry back at the start of a path only), and the histories of edits of the default registry are this family
+    c.warm_ok = False
+    return c
+
+
+def multi_family(alphabet, nmax, g):
+    out = []
+    for k in range(0, g):
+        for pre in itertools.product(alphabet, repeat=k):
+            out.append(make_multi_case(pre, k, alphabet))
+    for pre in itertools.product(alphabet, repeat=g):
+        out.append(make_multi_case(pre, nmax, alphabet))
+    return out
 
 
 def make_case(family, prefix, nmax, alphabet, every, cold, probe_set=None, config=None):
@@ -1041,7 +1198,7 @@ def cases(tier, mods):
                 + family("shadow", SHADOW, 3, 2, every=False, probe_set=allp)
                 + family("shadow-every", SHADOW_EVERY, 3, 1, every=True, probe_set=allp)
                 + family("fresh", FRESH, 3, 2, every=False, probe_set=allp)
-                + cancel_family(2, 1))
+                + cancel_family(2, 1) + multi_family(MULTI, 3, 2))
     # thorough: the round-1 alphabet one step deeper; the widened alphabet to length 3; reduced alphabets around the new
     # regions (asks / copies, shadowing symbol) to length 4
     return (family("deep", OPS, 4, 2, every=False) + family("every", EDITS, 4, 1, every=True)
@@ -1052,7 +1209,7 @@ def cases(tier, mods):
             + family("shadow-deep", [o for o in SHADOW if o not in ("def_kfoo", "convert", "arr_create", "old_mix")], 4, 2, every=False, probe_set=allp)
             + family("shadow-every", SHADOW_EVERY, 3, 1, every=True, probe_set=allp)
             + family("fresh", FRESH, 3, 2, every=False, probe_set=allp)
-            + cancel_family(3, 1))
+            + cancel_family(3, 1) + multi_family(MULTI, 3, 2))
 
 
 CONFORM = {"quick": 20, "thorough": 60}
